@@ -65,19 +65,28 @@ func dtlsRoleFromSDP(sessionDescription *sdp.SessionDescription) DTLSRole {
 		return DTLSRoleAuto
 	}
 
+	fromValue := func(value string) DTLSRole {
+		switch value {
+		case sdp.ConnectionRoleActive.String():
+			return DTLSRoleClient
+		case sdp.ConnectionRolePassive.String():
+			return DTLSRoleServer
+		default:
+			return DTLSRoleAuto
+		}
+	}
+
 	for _, mediaSection := range sessionDescription.MediaDescriptions {
 		for _, attribute := range mediaSection.Attributes {
 			if attribute.Key == "setup" {
-				switch attribute.Value {
-				case sdp.ConnectionRoleActive.String():
-					return DTLSRoleClient
-				case sdp.ConnectionRolePassive.String():
-					return DTLSRoleServer
-				default:
-					return DTLSRoleAuto
-				}
+				return fromValue(attribute.Value)
 			}
 		}
+	}
+
+	// RFC 4145 S10: setup is a session and media level attribute
+	if value, ok := sessionDescription.Attribute("setup"); ok {
+		return fromValue(value)
 	}
 
 	return DTLSRoleAuto
